@@ -25,8 +25,10 @@ Routes == {"rt", "str", "ast", "sigrt", "ast563", "sig563"}
 Present(o) == Routes \cap DOMAIN o
 
 Model(e, r) ==
-    CASE r \in {"rt", "sigrt"} -> ImplRuntimeRoute(e)
-      [] r \in {"str", "sig563"} -> ImplStringRoute(e)
+    CASE r = "rt" -> ImplRuntimeRoute(e)
+      [] r = "sigrt" -> ImplSigRuntimeRoute(e)
+      [] r = "str" -> ImplStringRoute(e)
+      [] r = "sig563" -> ImplSigStringRoute(e)
       [] r \in {"ast", "ast563"} -> ImplAstRoute(e)
 
 RealAgree(o) ==
